@@ -153,7 +153,11 @@ func (d *Discharger) discharge(i int, o *Obligation) {
 	// fast path: the newest z3 alone with a short budget
 	r := race(file, 3, d.seed, solvers[:1])
 	if r.status == "unknown" {
-		r = race(file, d.timeoutS, d.seed, solvers)
+		t := d.timeoutS
+		if o.Cover && t > 6 {
+			t = 6 // covers are vacuity guards: an undecided cover is reported, not waited for
+		}
+		r = race(file, t, d.seed, solvers)
 	}
 	o.Solver, o.Ms, o.Output = r.solver, r.ms, r.out
 	switch {
